@@ -358,8 +358,11 @@ def honoured(chk, rng, n):
         outs.append({"tid": tid, "lines": [], "sc": {"gravity": g, "shot": p, "cfg": cfgd, "path": "zeroing"}, "summ": {}, "outcome": "ok"})
         chk.stratum("zeroing_path_settings")
         # ---- limits: a calculator with custom limits vs the same shot on a default calculator
-        lim = rng.choice([{"cMaximumDrop": -3.0}, {"cMinimumVelocity": 2000.0}, {"cMinimumAltitude": 995.0},
-                          {"cMaximumDrop": -2.0, "cMinimumVelocity": 1500.0}])
+        # (among them settings that are not whole numbers: a setting means its value, whatever number type its default is written in)
+        lim = [{"cMaximumDrop": -2.5}, {"cMinimumVelocity": 2000.0}, {"cMaximumDrop": -0.75}, {"cMinimumAltitude": 995.0}, {"cMaximumDrop": -3.0},
+               {"cMaximumDrop": -2.0, "cMinimumVelocity": 1500.0}, {"cMinimumVelocity": 1999.5, "cMinimumAltitude": 996.25}][i % 7]
+        if any(float(v_) != int(v_) for v_ in lim.values()):
+            chk.stratum("limits_that_are_not_whole_numbers")
         p2 = shots.gen_shot(rng, winds=0, look=0.0)
         p2["mv_fps"], p2["alt_ft"] = 2600.0, 1000.0
         if i % 2:
@@ -469,7 +472,7 @@ def run(chk: core.Check, replay=None) -> None:
     with tempfile.TemporaryDirectory(dir=str(core.scratch())) as td:
         replay_names(chk, cases, td)
     chk.sample({"name_case": cases[7]})
-    chk.require_strata(["cfg_settings_dict_reused", "cfg_SetGlobalStep", "cfg_ResetGlobals", "cfg_NewCalc", "cfg_Use", "cfg_nonpositive_global_step",
+    chk.require_strata(["limits_that_are_not_whole_numbers", "cfg_settings_dict_reused", "cfg_SetGlobalStep", "cfg_ResetGlobals", "cfg_NewCalc", "cfg_Use", "cfg_nonpositive_global_step",
                         "cfg_use_with_global_changed", "gravity_custom", "limit_above_the_launch_point_barrel_up", "air_speed_far_above_ground_speed", "zeroing_path_settings", "limits_custom", "names_parse_unit", "names_set_pref",
                         "names_value_with_prefix", "names_value_preferred_name", "names_config_file_preferred",
                         "names_config_file_step_units", "names_unknown", "names_unknown_among_valid_entries"])
